@@ -30,6 +30,30 @@ class BoomBase(BaseException):
     """A fault that is not an Exception subclass (SystemExit-like)."""
 
 
+class BoomAttr(AttributeError):
+    """An AttributeError raised inside a callback (a typo such as self.motr)."""
+
+
+class BoomType(TypeError):
+    pass
+
+
+class BoomKey(KeyError):
+    pass
+
+
+class BoomStop(StopIteration):
+    pass
+
+
+BOOMS = dict(exception=Boom, base=BoomBase, attr=BoomAttr, type=BoomType, key=BoomKey, stop=BoomStop)
+ALL_BOOMS = tuple(BOOMS.values())
+
+
+class Shared:
+    """A robot object injected into the later-declared components."""
+
+
 class Log:
     def __init__(self):
         self.ev = []
@@ -170,7 +194,7 @@ class LoopEnv:
                 fire = (fs["pattern"] == "always" or (fs["pattern"] == "first" and n == 1)
                         or (fs["pattern"] == "later" and n >= 2))
                 if fire:
-                    e = (BoomBase if fs.get("kind") == "base" else Boom)(site)
+                    e = BOOMS[fs.get("kind", "exception")](site)
                     self.log.add("raise", site, id(e))
                     fs.setdefault("raised", []).append(e)
                     raise e
@@ -317,6 +341,16 @@ def build_robot(layout, H, opts):
             self.plain = "init"
 
         def setup(self):
+            # what the other components look like at this moment: all of them exist and are fully injected
+            r = H.robot
+            seen = []
+            for cn in getattr(H, "comps", []):
+                o = getattr(r, cn, None)
+                if o is not None and "shared" in getattr(type(o), "__annotations__", {}):
+                    seen.append((cn, getattr(o, "shared", None) is getattr(r, "shared", "<no robot attr>")))
+                elif o is None:
+                    seen.append((cn, False))
+            H.log.add("setup_sees", self.NAME, seen)
             H.callback(f"{self.NAME}.setup", self.NAME)
 
         def on_enable(self):
@@ -328,6 +362,8 @@ def build_robot(layout, H, opts):
         def execute(self):
             H.callback(f"{self.NAME}.execute", self.NAME)
 
+    CompA._hidden = will_reset_to(-1)  # a marker under a private name
+
     class CompB(CompA):
         NAME = "c2"
         y = will_reset_to("dflt")
@@ -338,6 +374,7 @@ def build_robot(layout, H, opts):
     class CompB1:
         NAME = "c2"
         y = will_reset_to("dflt")
+        shared: Shared
 
         def __init__(self):
             H.log.add("ctor", self.NAME)
@@ -357,6 +394,7 @@ def build_robot(layout, H, opts):
 
     class CompC:
         NAME = "c3"
+        shared: Shared
 
         def __init__(self):
             H.log.add("ctor", "c3")
@@ -370,6 +408,7 @@ def build_robot(layout, H, opts):
 
     class RobotBase0(MagicRobot):
         control_loop_wait_time = H.period
+        shared = Shared()
 
         def createObjects(self):
             H.log.add("createObjects")
@@ -536,7 +575,11 @@ def run_robot(c, job, opts=None):
                 continue
             pats = cfg.get("fault_patterns", ["first", "always", "later"])
             p = pats[c.choose(f"fpat{j}", len(pats))]
-            plan.append(dict(site=avail[k], pattern=p, n=0, kind=cfg.get("fault_kind", "exception")))
+            kind = cfg.get("fault_kind", "exception")
+            if kind == "any":
+                kinds = sorted(BOOMS)
+                kind = kinds[c.choose(f"fkind{j}", len(kinds))]
+            plan.append(dict(site=avail[k], pattern=p, n=0, kind=kind))
         env.fault = plan
         H.fault_plan = plan
     else:
@@ -554,7 +597,7 @@ def run_robot(c, job, opts=None):
     outcome = ("normal", None)
     try:
         r.startCompetition()
-    except (Boom, BoomBase) as e:
+    except ALL_BOOMS as e:
         outcome = ("boom", e)
     except Exception as e:
         outcome = ("error", repr(e)[:300])
@@ -800,4 +843,6 @@ def validate_against_real(seed, n_scripts, layouts=("R1", "R2", "R3")):
                 err=(a.get("error") or b.get("error"))))[:1800])
     samples = [dict(real_world_script=it["script"], layout=it["job"]["layout"], fms=it["fms"], fault=it["fault"], events=len(a["events"]))
                for it, a in list(zip(items, sym_res))[:3]]
+    if n_ok == 0 and not problems:
+        problems.append("loop stub validation: the real-world driver completed none of the scripts: " + "; ".join(notes[:2]))
     return dict(validated=n_ok, problems=problems, samples=samples, notes=notes)
